@@ -198,7 +198,7 @@ class FactEngine(object):
         self.at, self.after = self.cfg.forward(frozenset(), transfer, meet, edge)
 
     # -- per-path facts (for disjunctive guards); acyclic simple paths only
-    def path_facts(self, targets, cap=20000, history=False):
+    def path_facts(self, targets, cap=20000, history=False, nodes=False):
         """One entry per simple path from entry to a node in targets: the frozenset of
         facts that hold on arrival (history=False) or the pair (holding, ever
         established along the path) (history=True)."""
@@ -206,12 +206,14 @@ class FactEngine(object):
         out = []
         count = [0]
 
-        def step(n, fs, ever, onpath):
+        def step(n, fs, ever, onpath, trail=()):
             if count[0] > cap:
                 return
             fs = self._apply_kills(fs, self.kills.get(n.id))
+            if nodes:
+                trail = trail + (n,)
             if n.id in tg:
-                out.append((fs, ever) if history else fs)
+                out.append((fs, ever, trail) if nodes else (fs, ever) if history else fs)
                 count[0] += 1
                 return
             for (m, lab) in n.succs:
@@ -228,7 +230,7 @@ class FactEngine(object):
                 if new:
                     f2 = frozenset(fs | new)
                     e2 = frozenset(ever | new)
-                step(m, f2, e2, onpath | {m.id})
+                step(m, f2, e2, onpath | {m.id}, trail)
         import sys
         old = sys.getrecursionlimit()
         sys.setrecursionlimit(max(old, 10000))
